@@ -6,7 +6,7 @@
    fuel of the model always suffices, the parallel main loop never blocks for ever) is NOT proved:
    it is covered by the correspondence (all digraphs <= 3 tasks x all runners, sampled beyond) and by
    the oracle on implementation runs (exact hang detection by the deterministic scheduler). *)
-From DoitV Require Import Base Dispatch Runner DispatchP DispatchInv RunnerTr RunnerP CycleP AncP.
+From DoitV Require Import Base Dispatch Runner DispatchP DispatchInv RunnerTr RunnerP CycleP AncP HoldP.
 Open Scope N_scope.
 
 (* a task lying on a dependency cycle through task_dep (explicit, wild-card, implicit file
@@ -64,14 +64,39 @@ Print Assumptions C09_exit_code_3_is_cycle_diagnostic.
    returned [eff_dep] -- whatever the table, selection, flags, set-order oracles and fuel.
    (Invariant of Proofs/AncP.v: ExecNode.ancestors is a chain of effective dependencies ending at the
    node; a node's dependency lists only contain effective dependencies of its task.)
-   NOT PROVED: the same for the other diagnostic ("hold on" with nothing running, EHoldError), and that
-   an acyclic graph never deadlocks -- correspondence + oracle only. *)
+   The other diagnostic ("hold on" with nothing running, EHoldError) is C09_hold_error_never_false_serial
+   below.  NOT PROVED: termination (that a run over an acyclic graph ends within a fuel bound). *)
 Theorem C09_cycle_error_never_false_serial :
   forall tasks wake_rank calc_rank continue_ always fuel selection p,
     In (ECycleError p) (fst (run_serial tasks wake_rank calc_rank continue_ always fuel selection)) ->
     exists k, reach tasks k k.
 Proof. exact serial_cycle_error_is_real. Qed.
 Print Assumptions C09_cycle_error_never_false_serial.
+
+(* no false alarm, second diagnostic: when the dispatcher answers "hold on" to the serial runner -- every node
+   that is left waits for another one, nothing is ready, nothing is executing -- and the runner raises the
+   "tasks waiting for each other" error, the task graph really has a cycle through effective dependencies.
+   (Proofs/HoldP.v: wait-graph invariant -- every waiting node waits for at least one node, every node
+   somebody waits for exists, is unfinished and sits in ready / waiting / is the current node, waiting_me
+   mirrors the wait lists, a finished task is removed from every wait list by _update_waiting; at "hold on"
+   every waiting node therefore has a successor among the waiting nodes, and a finite graph in which every
+   vertex has a successor has a cycle -- pigeonhole.)  Together with the previous theorem: over an acyclic
+   task graph a serial run never ends with exit code 3 -- it is either complete, stopped by a failure, or
+   out of fuel (termination itself is not proved). *)
+Theorem C09_hold_error_never_false_serial :
+  forall tasks wake_rank calc_rank continue_ always fuel selection,
+    In EHoldError (fst (run_serial tasks wake_rank calc_rank continue_ always fuel selection)) ->
+    exists k, reach tasks k k.
+Proof. exact serial_hold_error_is_real. Qed.
+Print Assumptions C09_hold_error_never_false_serial.
+
+Theorem C09_acyclic_never_diagnosed_serial :
+  forall tasks wake_rank calc_rank continue_ always fuel selection,
+    (forall k, ~ reach tasks k k) ->
+    let tr := fst (run_serial tasks wake_rank calc_rank continue_ always fuel selection) in
+    ~ In EHoldError tr /\ forall p, ~ In (ECycleError p) tr.
+Proof. exact serial_acyclic_no_diagnostic. Qed.
+Print Assumptions C09_acyclic_never_diagnosed_serial.
 
 (* non-vacuity: a cycle that is not on one ancestor chain (a -> [b, c], b -> [c], c -> [b]) is
    diagnosed through the hold-on path, nothing on it runs *)
